@@ -1390,7 +1390,8 @@ func ReplaceMissingNH(c *fluent.GRIBIClient, t testing.TB, _ ...TestOpt) {
 			c.Modify().ReplaceEntry(t,
 				fluent.NextHopEntry().
 					WithNetworkInstance(defaultNetworkInstanceName).
-					WithIndex(42))
+					WithIndex(42).
+					WithIPAddress("192.0.2.3"))
 		},
 	}
 
@@ -1430,7 +1431,8 @@ func ReplaceMissingNHG(c *fluent.GRIBIClient, t testing.TB, _ ...TestOpt) {
 			c.Modify().DeleteEntry(t,
 				fluent.NextHopEntry().
 					WithNetworkInstance(defaultNetworkInstanceName).
-					WithIndex(42))
+					WithIndex(42).
+					WithIPAddress("192.0.2.3"))
 		},
 	}
 
@@ -1497,7 +1499,8 @@ func ReplaceMissingIPv4Entry(c *fluent.GRIBIClient, t testing.TB, _ ...TestOpt) 
 			c.Modify().DeleteEntry(t,
 				fluent.NextHopEntry().
 					WithNetworkInstance(defaultNetworkInstanceName).
-					WithIndex(42))
+					WithIndex(42).
+					WithIPAddress("192.0.2.3"))
 		},
 	}
 
